@@ -58,7 +58,7 @@ func Bytes(t *rapid.T, label string, n int) []byte {
 // Fill is a splitmix-style byte stream: a pure function of (seed, n).
 func Fill(seed uint64, n int) []byte {
 	b := make([]byte, n)
-	x := seed | 1
+	x := seed*0x9e3779b97f4a7c15 + 0x632be59bd9b4e019
 	for i := 0; i < n; i += 8 {
 		x += 0x9e3779b97f4a7c15
 		z := x
